@@ -220,12 +220,16 @@ pub fn run(ctx: &mut Ctx) {
         check_exec(ctx, &v, "random");
     });
     let nc = ctx.n(600, 20_000);
-    ctx.family("command-position", nc, |ctx, rng, _i| check_command_position(ctx, rng));
+    ctx.family("command-position", nc, |ctx, rng, _i| {
+        check_command_position(ctx, rng);
+        crate::run::end_case(); // removes the scratch directory
+    });
     let np = ctx.n(400, 8000);
     ctx.family("pipelines", np, |ctx, rng, _i| {
         let n = rng.range(2, 5) as usize;
         let stages: Vec<Vec<String>> = (0..n).map(|_| (0..rng.below(4)).map(|_| rand_word(rng, 16)).collect()).collect();
         ctx.distinct(&format!("pl{:?}", stages));
         check_pipeline(ctx, rng, &stages);
+        crate::run::end_case();
     });
 }
